@@ -6,6 +6,8 @@ combinations x resample values; sequences of calls on one Fitness object (the ca
 is re-used and mutated between calls); compared with the Lean `runCalls` / `pyswarmsBatch`."""
 import math
 
+import json
+
 import numpy as np
 
 from common import f2h, h2f, close
@@ -33,9 +35,13 @@ class ScriptedAnalysis(af.Analysis):
         self.calls = 0
         self.wrap = "float"
 
+    by_instance = None  # swarm mode: outcome scripted per particle, looked up by the instance it becomes
+
     def log_likelihood_function(self, instance):
         self.calls += 1
         o = self.next
+        if self.by_instance is not None:
+            o = self.by_instance.get(inst_key(instance), 0.0)
         if o == "fit":
             raise exc.FitException("scripted")
         if o == "other":
@@ -48,6 +54,11 @@ class ScriptedAnalysis(af.Analysis):
         if self.wrap == "0-d array":
             return np.array(o)
         return o
+
+
+def inst_key(instance):
+    import hashlib
+    return hashlib.sha1(json.dumps(X.canon_inst(X.inst_of(instance)), sort_keys=True).encode()).hexdigest()
 
 
 def gen_outcome(rng):
@@ -127,14 +138,32 @@ def one_case(ctx, prog, spec=None, label="gen"):
             calls.append({"v": list(v), "o": gen_outcome(rng)})
         pyswarms = rng.random() < 0.2
         reuse_buffer = rng.random() < 0.5
+        swarm = pyswarms and rng.random() < 0.6
     else:
         cfg, calls, pyswarms, reuse_buffer = spec["cfg"], spec["calls"], spec.get("pyswarms", False), spec.get("reuse_buffer", True)
+        swarm = spec.get("swarm", False)
+    by_instance = None
+    if swarm:
+        # all particles in one call, as pyswarms does: the scripted outcome of a particle is found by the
+        # instance it becomes (particles that become the same instance share their outcome; an exception
+        # other than the fit exception would end the whole call and is not scripted here)
+        by_instance = {}
+        try:
+            for c in calls:
+                if c["o"] == "other":
+                    c["o"] = "fit"
+                if len(c["v"]) != len(priors):
+                    raise ValueError("length")
+                k = inst_key(model.instance_from_vector(list(c["v"]), ignore_prior_limits=True))
+                c["o"] = by_instance.setdefault(k, c["o"])
+        except Exception:
+            swarm, by_instance = False, None
 
     wire_cfg = {"fom_is_ll": cfg["fom_is_ll"], "chi": cfg["chi"], "history": cfg["history"], "resample": f2h(cfg["resample"])}
     req = {"p": "C04", "comp": comp, "lims": lims, "asserts": wire_asserts, "priors": pdesc, "cfg": wire_cfg,
            "calls": [{"v": [f2h(x) for x in c["v"]], "o": wire_outcome(c["o"])} for c in calls], "pyswarms": pyswarms}
     ans = ctx.lean.ask(req)
-    case = {"program": prog, "spec": {"cfg": cfg, "calls": calls, "pyswarms": pyswarms, "reuse_buffer": reuse_buffer}, "label": label}
+    case = {"program": prog, "spec": {"cfg": cfg, "calls": calls, "pyswarms": pyswarms, "reuse_buffer": reuse_buffer, "swarm": swarm}, "label": label}
     if "driver_error" in ans:
         ctx.disagree("driver", case, None, ans)
         return
@@ -149,8 +178,16 @@ def one_case(ctx, prog, spec=None, label="gen"):
     if pyswarms:
         fit = FitnessPySwarms(model=model, analysis=analysis, fom_is_log_likelihood=False,
                               resample_figure_of_merit=cfg["resample"], convert_to_chi_squared=True)
+        if swarm:
+            analysis.by_instance = by_instance
+            ctx.hit("pyswarms:whole-swarm-in-one-call:%d" % min(len(calls), 4))
+            try:
+                out = fit(np.array([c["v"] for c in calls]))
+                impl_results = [float(x) for x in out]
+            except Exception as e:
+                impl_results = ["raises" if not isinstance(e, exc.FitException) else "raises-fit"] * len(calls)
         # one particle per call (the scripted outcome is per evaluation)
-        for c in calls:
+        for c in ([] if swarm else calls):
             analysis.next = c["o"]
             try:
                 out = fit(np.array([c["v"]]))
